@@ -619,6 +619,10 @@ pub fn load_mate_roots() -> Vec<String> {
         .unwrap_or_default()
 }
 
+fn parse_mv_opt(s: &str) -> Option<ChessMove> {
+    crate::position::parse_mv(s)
+}
+
 pub fn load_ep_only_reply() -> Vec<String> {
     let path = concat!(env!("CARGO_MANIFEST_DIR"), "/../corpus/ep_only_reply.txt");
     std::fs::read_to_string(path)
@@ -898,6 +902,70 @@ pub fn c15(out: &mut Out, thorough: bool, lib: &str) {
         // the harness emits the request with the observed tokens and the answer is the same token string
         let line_s = toks.join(" ");
         out.record(kind, true, format!("bot {line_s}"), line_s.clone());
+    }
+    // histories from the fixed corpora through the plugin: the start of a rare line is set, the line is played, the board is
+    // read back, then every geometric candidate move (castlings, en-passant shaped captures, king steps) is submitted —
+    // accepted iff legal by the rules, board equal to the reference successor
+    {
+        let mut starts: Vec<(String, Vec<String>)> = load_lines();
+        for f in load_ep_only_reply().into_iter().take(if thorough { 150 } else { 40 }) {
+            starts.push((f, Vec::new()));
+        }
+        for (fen, moves) in starts {
+            let Some(b0) = crate::common::guard(|| chess_movegen::fen::parse_fen(fen.as_bytes()).ok()).flatten() else { continue };
+            let mut eng = api.new_engine();
+            let mut toks: Vec<String> = Vec::new();
+            eng.set_board(b0);
+            let mut cur = b0;
+            toks.push(format!("set:{}", pos64(&view(&b0))));
+            let mut play = |eng: &mut chess_api::ChessEngine, cur: &mut Board, toks: &mut Vec<String>, mv: ChessMove| {
+                let res = eng.make_move(mv);
+                let s = if res.is_valid { if res.is_three_fold_draw { "valid+3fold" } else { "valid" } } else { "invalid" };
+                toks.push(format!("mv:{}={s}", mv_str(mv)));
+                if res.is_valid {
+                    if let Some(nb) = cur.move_new(mv) {
+                        *cur = nb;
+                    } else {
+                        *cur = eng.board();
+                    }
+                }
+                toks.push(format!("board={}", pos64(&view(&eng.board()))));
+            };
+            if moves.is_empty() {
+                // a check by a double step that only an en-passant capture answers: play every double step, then the candidates
+                let doubles: Vec<ChessMove> = cur.legals().filter(|m| cur.raw().get(m.source).map(|x| x.1) == Some(chess_bitboard::Piece::Pawn) && (m.source.to_u8() as i32 / 8 - m.dest.to_u8() as i32 / 8).abs() == 2).collect();
+                if let Some(&d) = doubles.iter().find(|&&d| cur.move_new(d).map(|nb| nb.in_check()).unwrap_or(false)) {
+                    play(&mut eng, &mut cur, &mut toks, d);
+                }
+            } else {
+                for m in moves.iter() {
+                    if let Some(mv) = parse_mv_opt(m) {
+                        play(&mut eng, &mut cur, &mut toks, mv);
+                    }
+                }
+            }
+            for round in 0..2 {
+                let cands = crate::posprops::candidate_moves(&view(&eng.board()));
+                let mut accepted = false;
+                for mv in cands {
+                    let before = eng.board();
+                    let res = eng.make_move(mv);
+                    let s = if res.is_valid { if res.is_three_fold_draw { "valid+3fold" } else { "valid" } } else { "invalid" };
+                    toks.push(format!("mv:{}={s}", mv_str(mv)));
+                    toks.push(format!("board={}", pos64(&view(&eng.board()))));
+                    if res.is_valid {
+                        accepted = true;
+                        let _ = before;
+                        break;
+                    }
+                }
+                if !accepted || round == 1 {
+                    break;
+                }
+            }
+            let line_s = toks.join(" ");
+            out.record("rare-line-through-the-plugin", true, format!("bot {line_s}"), line_s.clone());
+        }
     }
     // the u8 counter: a long knight shuffle repeats one position hundreds of times (more than 256)
     {
